@@ -385,7 +385,9 @@ func (w *uworld) close() {
 	case <-w.svc.Done():
 	case <-time.After(30 * time.Second):
 	}
-	w.bus.Close()
+	// the bus is left open: a manager starts a new lease-withdrawal loop at every completed deploy and waits only for
+	// the last one at exit, so an earlier loop may subscribe late; on a closed bus its Subscribe fails and
+	// lease_withdraw.go:69 dereferences the nil subscriber (outside this component, noted in docs/hostname.md)
 	uMu.Lock()
 	uCur = nil
 	uMu.Unlock()
